@@ -871,6 +871,50 @@ func e4RunBody(c e4Case, started chan<- *e4Env) (res *e4Result) {
 				log.add(0, "HANDLE", nil, fmt.Sprintf("handler=%d", s.Extra))
 				continue
 			}
+			if s.Topic == "stats" {
+				// variant: the reconnect loop is held up between SetClient and the end of RetryClient.Connect - at the
+				// statistics lock, which Connect takes after it has dealt with the handler - while Handle is called and
+				// returns. (The lock is taken on the loop's goroutine at the observation point behind SetClient and released
+				// here after Handle came back.)
+				got := make(chan struct{})
+				a := &e4HookAction{site: "reconnect:client-set", done: make(chan struct{}), run: func() {
+					rc.muStats.Lock()
+					close(got)
+				}}
+				e.hookMu.Lock()
+				e.pending = append(e.pending, a)
+				e.hookMu.Unlock()
+				d.release()
+				select {
+				case <-got:
+					for i := 0; i < 200; i++ {
+						runtime.Gosched() // let the loop run into Connect, up to the statistics lock
+					}
+					time.Sleep(time.Duration(s.ID) * time.Microsecond)
+					log.add(0, "HANDLE-START", nil, fmt.Sprintf("handler=%d while the loop is inside Connect", s.Extra))
+					cli.Handle(e.handler(s.Extra))
+					log.add(0, "HANDLE", nil, fmt.Sprintf("handler=%d", s.Extra))
+					rc.muStats.Unlock()
+				case <-time.After(10 * time.Second):
+					e.hookMu.Lock()
+					for i, x := range e.pending {
+						if x == a {
+							e.pending = append(e.pending[:i], e.pending[i+1:]...)
+							break
+						}
+					}
+					e.hookMu.Unlock()
+					select {
+					case <-got: // it ran after all: give the lock back
+						rc.muStats.Unlock()
+					default:
+					}
+					log.add(0, "HANDLE-START", nil, fmt.Sprintf("handler=%d", s.Extra))
+					cli.Handle(e.handler(s.Extra))
+					log.add(0, "HANDLE", nil, fmt.Sprintf("handler=%d", s.Extra))
+				}
+				continue
+			}
 			locked := bc.cli
 			if s.Retain {
 				// variant: it is the *next* client whose lock is held (from the moment the dialler hands it out), so that
